@@ -118,17 +118,27 @@ def check_plumbing(ck):
     ck.rule(R, "flag plumbing: the base constructor reads 'readonly' from the configuration and lets the argument "
                "override it; every backend constructor forwards its read_only parameter", 3)
     fa = FA(ck, "storage.StorageBackend.__init__")
-    asg = [s for s in fa.stmts(ast.Assign) if any(A.dotted(t) == "self.read_only" for t in s.targets)]
-    from_cfg = [s for s in asg if isinstance(s.value, ast.Call) and A.call_attr(s.value) == "get" and s.value.args and A.const_str(s.value.args[0]) == "readonly"]
-    from_arg = [s for s in asg if isinstance(s.value, ast.Name) and s.value.id == "read_only"]
-    ok = len(from_cfg) == 1 and len(from_arg) == 1
-    if ok:
-        dflt = from_cfg[0].value.args[1] if len(from_cfg[0].value.args) > 1 else None
-        ok = dflt is not None and A.norm(dflt) == "False"
-        g = fa.enclosing(from_arg[0], ast.If)
-        ok = ok and g is not None and A.norm(g.test) == "read_only is not None"
-        # the override comes after the config read on every path
-        ok = ok and all(fa.cfg.must_pass(fa.nodes(from_cfg[0]), i) for i in fa.nodes(from_arg[0]))
+    # decided on what self.read_only finally holds (FA.outcomes): the argument when one was given, else the
+    # configuration's 'readonly' with default False — however the constructor spells that
+    oc = fa.outcomes("self.read_only")
+    ok = False
+    if oc is not None:
+        by_val = {}
+        for (lits, txt) in oc:
+            by_val.setdefault(txt, []).append(lits)
+        arg_cases = by_val.pop("read_only", [])
+        cfg_vals = [t for t in by_val if t.endswith(".get('readonly', False)") or t.endswith("['readonly']")]
+        other = [t for t in by_val if t not in cfg_vals]
+        ok = bool(arg_cases) and bool(cfg_vals) and not other
+        # the argument is taken exactly when it is not None, the configuration otherwise
+        ok = ok and all(("read_only is None", False) in l for l in arg_cases)
+        ok = ok and all(("read_only is None", True) in l for t in cfg_vals for l in by_val[t])
+        # a configuration that lacks the key means False
+        ok = ok and all(t.endswith(".get('readonly', False)") or any(("'readonly' in " in x[0] and x[1]) for l in by_val[t] for x in l) for t in cfg_vals)
+        if not ok and "False" in by_val and cfg_vals:
+            # `config['readonly'] if 'readonly' in config else False`
+            rest = [t for t in other if t != "False"]
+            ok = bool(arg_cases) and not rest and all(("read_only is None", False) in l for l in arg_cases)
     ck.ob(R, fa.key(None, "config-then-arg"), ok, "read_only = config['readonly'] (default False), then the argument overrides" if ok else
           "the base constructor no longer reads 'readonly' (default False) and lets a non-None argument override it", fa.where())
     for cls in storage_backend_classes(ck):
